@@ -203,13 +203,15 @@ PROPS = {
     },
     "C33": {
         "level": "proof",
-        "verus": ["smith_response", "execution"],
+        "verus": ["smith_response", "smith_collect", "execution"],
         "explanation": "KERNEL ONLY: ResponseBuilder::type_condition_matches, the test that decides which fragments contribute response keys for the chosen concrete object type. Verus proves on the extracted body, for every schema, "
                        "object type and type condition, that it equals the spec's DoesFragmentTypeApply -- the same specification function (shared text) against which the executor's does_fragment_type_apply is proved (unit execution, C26): "
-                       "the generator and the executor agree on which fragments apply.",
+                       "the generator and the executor agree on which fragments apply. Unit smith_collect: ResponseBuilder::collect_fields, which decides the response keys of every generated object -- a field goes to the group of its response key "
+                       "(alias, else name), groups in order of first appearance; a named or inline fragment contributes the groups of its selection set, merged by APPENDING to existing groups, exactly when it exists and its type condition applies -- "
+                       "for every fuel that is enough for the fragment expansion (a recursive predicate; that some fuel is enough for an acyclic document is not proved).",
         "assumptions": ["Name equality is equality of the text; IndexMap / IndexSet lookups by text (shims of unit execution); `concrete` names an object type stored under its own name (what concrete_type hands over: precondition)",
                         "listed rewrite: `members.iter().any(|m| m.name == *concrete)` -> `members.contains(concrete)`"],
-        "not_decided": ["everything else of C33: collect_fields / selection_set / generate_field_value (response keys, list nesting, null positions, enum values, scalars of the right JSON kind), concrete_type's choice, "
+        "not_decided": ["everything else of C33: selection_set / generate_field_value (list nesting, null positions, enum values, scalars of the right JSON kind), concrete_type's choice, termination of collect_fields, "
                         "and that executing the operation against the generated data reproduces it (needs the executor: C26's undecided main clause)"],
     },
     "C10": {
